@@ -120,6 +120,11 @@ def builders(model):
         return I.instantiate(model.get(cls), list(a), k)
     X = spaces()
     B = {}
+
+    def kin(I, *a, **k):
+        # a generic point inside the effective domain {x < 1}
+        I.hooks.region = {'x0': 0.3, 'x1': -0.4, 'x2': 0.5}
+        return inst(*a, **k)
     for w in (None, 'const', 'array'):
         t = {None: 'unweighted', 'const': 'weight w',
              'array': 'weights w0..w2'}[w]
@@ -137,9 +142,9 @@ def builders(model):
             I, 'KullbackLeibler', X(w))
         B['KullbackLeibler[prior g,%s]' % t] = lambda I, w=w: inst(
             I, 'KullbackLeibler', X(w), prior=sym_elem(X(w), 'g'))
-        B['KullbackLeiblerConvexConj[%s]' % t] = lambda I, w=w: inst(
+        B['KullbackLeiblerConvexConj[%s]' % t] = lambda I, w=w: kin(I, 
             I, 'KullbackLeiblerConvexConj', X(w))
-        B['KullbackLeiblerConvexConj[prior g,%s]' % t] = lambda I, w=w: inst(
+        B['KullbackLeiblerConvexConj[prior g,%s]' % t] = lambda I, w=w: kin(I, 
             I, 'KullbackLeiblerConvexConj', X(w), prior=sym_elem(X(w), 'g'))
         B['KullbackLeiblerCrossEntropy[%s]' % t] = lambda I, w=w: inst(
             I, 'KullbackLeiblerCrossEntropy', X(w))
